@@ -168,6 +168,18 @@ func TestC16(t *testing.T) {
 				for i, e := range n.exprs {
 					ps = append(ps, c16Producer{name: fmt.Sprintf("expr#%d %s", i, e), expr: e})
 				}
+				lit := n.exprs[0]
+				if n.name != "2^53" { // counting up to 2^53 never ends: 2^53 + 1 is not a double
+					ps = append(ps, c16Producer{name: "for-counter", setup: bn.KwVar + " held = nil; " + bn.KwFor + " (" + bn.KwVar + " i = " + lit + " - 2; i <= " + lit + "; i = i + 1) { held = i; }", expr: "held"})
+				}
+				ps = append(ps,
+					c16Producer{name: "for-counter-down", setup: bn.KwVar + " held = nil; " + bn.KwFor + " (" + bn.KwVar + " i = " + lit + " + 2; i >= " + lit + "; i = i - 1) { held = i; }", expr: "held"},
+					c16Producer{name: "while-counter", setup: bn.KwVar + " held = " + lit + " - 3; " + bn.KwWhile + " (held < " + lit + ") { held = held + 1; }", expr: "held"},
+					c16Producer{name: "update-statement", setup: bn.KwVar + " held = " + lit + " - 1; held = held + 1;", expr: "held"},
+					c16Producer{name: "update-statement-minus", setup: bn.KwVar + " held = " + lit + " + 2; held = held - 2;", expr: "held"},
+					c16Producer{name: "element-update", setup: bn.KwVar + " cell = [" + lit + " - 1]; cell[0] = cell[0] + 1;", expr: "cell[0]"},
+					c16Producer{name: "recursion-result", setup: bn.KwFun + " up(k) { " + bn.KwIf + " (k == 0) " + bn.KwReturn + " " + lit + " - 3; " + bn.KwReturn + " up(k - 1) + 1; }", expr: "up(3)"},
+				)
 				ps = append(ps, c16Producer{name: "parameter", expr: n.exprs[0], param: true},
 					c16Producer{name: "function-result", setup: bn.KwFun + " mkv() { " + bn.KwReturn + " " + n.exprs[len(n.exprs)/2] + "; }", expr: "mkv()"},
 					c16Producer{name: "variable-of-bitwise", setup: bn.KwVar + " held = " + n.exprs[2] + ";", expr: "held"})
